@@ -386,7 +386,7 @@ func runCase(c *rig.Ctx, cs *Case, bucket string, doShrink bool) {
 	if len(v.fails) == 0 {
 		return
 	}
-	if doShrink {
+	if doShrink && firstClass(v) != "c12.hang" { // (every evaluation of a blocking history costs the watchdog's 30 s)
 		class := firstClass(v)
 		small := shrink(c, cs, class)
 		sv := evaluate(c, small)
@@ -403,6 +403,34 @@ func firstN(o []ImplOut, n int) []ImplOut {
 		return o[:n]
 	}
 	return o
+}
+
+// hostStream: Hostname of the real NewExtraRequestInfo vs. the model's hostWithoutPort on Host headers built from
+// the bytes that matter to net.SplitHostPort and strings.ToLower (ASCII).
+func hostStream(c *rig.Ctx) {
+	pieces := []string{"a", "B", "x.example", "X.Example", ":", ":", "[", "]", "::1", "6443", "", ".", "-", "[::1]", "[fe80::1%25eth0]", "1.2.3.4", "_", "Z", "@"}
+	n := c.Budget(1500, 60000)
+	for i := 0; i < n && c.NFailures() < 5; i++ {
+		hp := ""
+		for k := c.Rng.Intn(5); k >= 0; k-- {
+			hp += pieces[c.Rng.Intn(len(pieces))]
+		}
+		_, got, err := requestCtx(hp)
+		var want string
+		merr := c.Model("C12.host", map[string]string{"hp": rig.Hex(hp)}, &want)
+		class := "bare"
+		if strings.Contains(hp, ":") {
+			class = "colon"
+		}
+		if strings.ContainsAny(hp, "[]") {
+			class = "bracket"
+		}
+		c.Case("host:"+hp, got != strings.ToLower(hp), "hostport:"+class, nil)
+		if err != nil || merr != nil || rig.Hex(got) != want {
+			c.Fail(rig.Failure{Kind: "diff", Class: "c12.diff-hostname", Case: map[string]string{"hostport": rig.Hex(hp)}, Impl: rig.Hex(got), Model: want,
+				What: fmt.Sprintf("Hostname of Host header %q: code %q, model %q (errors: %v / %v)", hp, got, rig.UnHex(want), err, merr)})
+		}
+	}
 }
 
 func main() {
@@ -436,6 +464,7 @@ func main() {
 			}
 			runCase(c, env.Case, "corpus", false)
 		}
+		hostStream(c)
 		n := c.Budget(700, 30000)
 		for i := 0; i < n && c.NFailures() < 5; i++ {
 			profile := "long"
